@@ -151,7 +151,11 @@ Local ==
              [] call.a = "rem" -> visA = <<>>
              [] call.a = "fmt" -> visA = visB
              [] OTHER -> TRUE
-         XD2 == IF call.a \in {"del", "rem"} THEN XD \cup (Range(visB) \ Range(visA)) ELSE XD
+         (* a multi-operation transaction: every deletion it carries counts as explicit (stricter *)
+         (* SameInput, hence never more demanding for C01_Converge)                              *)
+         XD2 == IF call.a \in {"del", "rem"} THEN XD \cup (Range(visB) \ Range(visA))
+                ELSE IF call.a = "multi" THEN XD \cup Ids(Ev.upd.del)
+                ELSE XD
          fresh == {us[i].id : i \in FreshIdx(us)}
          SEEN2 == [x \in DOMAIN SEEN \cup fresh |->
                      IF x \in DOMAIN SEEN THEN SEEN[x]
